@@ -1382,3 +1382,41 @@ mod tests {
         block.encode_to_vec()
     }
 }
+
+/// Verification hooks (compiled only with `--cfg eigerco_lumina_verif`): accessors for the
+/// module-private items the external harness needs.  No logic of their own.
+#[cfg(eigerco_lumina_verif)]
+pub(crate) mod verif_shim {
+    use super::*;
+
+    pub(crate) const MAX_SAMPLES_NEEDED: usize = super::MAX_SAMPLES_NEEDED;
+    pub(crate) const PRUNER_THRESHOLD: u64 = super::PRUNER_THRESHOLD;
+
+    /// Forwards to the private `random_indexes`.
+    pub(crate) fn random_indexes(
+        square_width: u16,
+        max_samples_needed: usize,
+    ) -> HashSet<(u16, u16)> {
+        super::random_indexes(square_width, max_samples_needed)
+    }
+
+    impl Daser {
+        /// Same construction as the `#[cfg(test)]` `Daser::mocked`, returning the raw
+        /// command receiver instead of the test handle.
+        pub(crate) fn verif_mocked() -> (Daser, mpsc::Receiver<DaserCmd>) {
+            let (cmd_tx, cmd_rx) = mpsc::channel(16);
+            let cancellation_token = CancellationToken::new();
+
+            // Just a fake join_handle
+            let join_handle = spawn(async {});
+
+            let daser = Daser {
+                cmd_tx,
+                cancellation_token,
+                join_handle,
+            };
+
+            (daser, cmd_rx)
+        }
+    }
+}
